@@ -6,7 +6,7 @@ CONSTANTS
   MaxHW = 1
   MaxEp = 2
   MaxImg = 0
-  MaxRd = 3
+  MaxRd = 2
   Keys = {"a"}
   CapSet = {2}
   OccSet = {FALSE}
